@@ -185,6 +185,17 @@ class Tracer:
             self.stack.remove(a)
         return v
 
+    def yielding(self, a, v):
+        """The traced generator delegates each yield to this helper (``yield from``): it is told it
+        runs again however it is resumed -- next / send, an exception thrown in (whose handler may
+        call other actors before anything is bound), close."""
+        v = self.yld(a, v)
+        try:
+            got = yield v
+        finally:
+            self._touch(a)
+        return got
+
     def recv(self, a, v):
         self._touch(a)
         if self.hook is not None:
